@@ -41,10 +41,14 @@ replace vg => /verif/g
 `
 
 func progDir(p *prog.Program) string {
-	if p.AutoInstrument {
-		return "auto/" + p.Name
+	name := p.Name
+	if p.Host != "" {
+		name = p.Host // a guest lives in its host's file
 	}
-	return "plain/" + p.Name
+	if p.AutoInstrument {
+		return "auto/" + name
+	}
+	return "plain/" + name
 }
 
 // writeCorpus writes the programs as cff-tagged packages.
@@ -56,7 +60,9 @@ func writeCorpus(work string, progs []*prog.Program) *corpus {
 	sum, _ := os.ReadFile(filepath.Join(vc.RepoDir, "go.sum"))
 	must(os.WriteFile(filepath.Join(dir, "go.sum"), sum, 0o644))
 	for _, p := range progs {
-		writeProgFiles(dir, progDir(p), p)
+		if p.Host == "" {
+			writeProgFiles(dir, progDir(p), p)
+		}
 	}
 	return c
 }
@@ -129,7 +135,7 @@ func (c *corpus) buildRunner(race bool) {
 		b.WriteString("package main\n\nimport (\n\t\"vg/grun\"\n")
 		n := 0
 		for _, p := range c.Progs {
-			if _, bad := c.Dropped[p.Name]; bad {
+			if _, bad := c.Dropped[p.Name]; bad || p.Host != "" {
 				continue
 			}
 			fmt.Fprintf(&b, "\t_ \"scratch/%s\"\n", progDir(p))
@@ -157,6 +163,11 @@ func (c *corpus) buildRunner(race bool) {
 			if _, done := c.Dropped[name]; !done {
 				c.Dropped[name] = "generated code does not compile: " + grepLines(o, m[1]+"/", 3)
 				dropped++
+				for _, p := range c.Progs {
+					if p.Host == name {
+						c.Dropped[p.Name] = c.Dropped[name]
+					}
+				}
 			}
 		}
 		if dropped == 0 {
